@@ -96,3 +96,335 @@ Proof.
   unfold mp_astep, mp_astep_data, mp_arelease. cbv zeta.
   destruct (ma_m a); mp_break; reflexivity.
 Qed.
+
+(* ------------------------------------------------------------------ the relation *)
+Definition mp_nocr_end (r : bytes) : Prop := r = [] \/ last r 0%N <> CR.
+
+Record mp_base (s : mp_state) (A : mp_ast) : Prop := mk_mp_base {
+  mb_b : ma_b A = mps_boundary s;
+  mb_fault : mps_fault s = false;
+  mb_wf : mp_plwf (mps_pl s);
+  mb_bok : exists b, mps_boundary s = [CR; LF; mp_DASH; mp_DASH] ++ b /\ mp_bnd_okb b = true
+}.
+
+(* shape of a boundary candidate: data d, then the line ending under test (none at the very start) *)
+Definition mp_eolshape (cr : bool) (d eol : bytes) : Prop :=
+  (cr = false /\ eol = [] /\ d = []) \/ (cr = false /\ eol = [LF] /\ mp_nocr_end d) \/
+  (cr = false /\ eol = [CR; LF]) \/ (cr = true /\ eol = [LF] /\ d = []).
+
+Definition mp_single_corr (st : mp_pstate) (m : mp_am) : Prop :=
+  match st, m with
+  | MpsIsLast2, AmIsLast2 | MpsIsLast1, AmIsLast1 | MpsEatLws, AmEatLws | MpsEatLwsCr, AmEatLwsCr => True
+  | _, _ => False
+  end.
+
+Inductive mp_rm (data : bytes) (s : mp_state) (pos sp drp : nat) (A : mp_ast) : Prop :=
+| RmData (crp : bool) (reg : bytes) :
+    mps_state s = MpsData -> mps_bpieces s = [] -> ma_m A = AmData crp ->
+    ma_pl A = mp_hd (mps_pl s) reg false ->
+    sp <= pos -> pos <= length data ->
+    ((mps_cr s = true /\ crp = true /\ pos = sp /\ reg = []) \/
+     (mps_cr s = false /\ mp_slc data sp pos = reg ++ (if crp then [CR] else []) /\
+      (crp = false -> mp_nocr_end reg) /\
+      (crp = true -> exists c, nth_error data pos = Some c /\ c <> LF))) ->
+    mp_rm data s pos sp drp A
+| RmBnd (held : bytes) (k : nat) (d eol : bytes) :
+    mps_state s = MpsBoundary -> ma_m A = AmBnd held k -> mps_mpos s = k ->
+    2 <= k -> k < length (mps_boundary s) ->
+    firstn (mps_cand s) (concat (mps_bpieces s) ++ mp_slc data sp pos) = d ++ eol ->
+    skipn (mps_cand s) (concat (mps_bpieces s) ++ mp_slc data sp pos) = mp_matched (mps_boundary s) k ->
+    held = (if mps_cr s then [CR] else []) ++ eol -> mp_eolshape (mps_cr s) d eol ->
+    ma_pl A = mp_hd (mps_pl s) d false ->
+    sp <= pos -> pos <= length data ->
+    (mps_bpieces s = [] -> mps_cand s + sp = drp /\ sp <= drp /\ drp <= pos) ->
+    (forall (p1 : bytes) (r : list bytes), mps_bpieces s = p1 :: r -> mps_cand s <= length p1 /\ sp = 0 /\ drp = 0) ->
+    mp_rm data s pos sp drp A
+| RmSingle :
+    mp_single_corr (mps_state s) (ma_m A) -> mps_bpieces s = [] -> mps_cr s = false -> ma_pl A = mps_pl s ->
+    sp <= pos -> pos <= length data ->
+    mp_rm data s pos sp drp A.
+
+(* handing x after reg on the reference side, when the step was accepted by the premise *)
+Lemma ahd_after pl reg ok x l :
+  snd (mp_ahd (mp_hd pl reg false) ok x l) = true -> x <> [] ->
+  fst (mp_ahd (mp_hd pl reg false) ok x l) = mp_hd pl (reg ++ x) l /\ mp_dupb pl = false.
+Proof.
+  intros H Hx. apply ahd_ok in H. destruct H as [_ [H|H]]; [congruence|].
+  assert (Hd : mp_dupb pl = false).
+  { destruct (mp_dupb pl) eqn:E; [|reflexivity]. rewrite (mp_dupb_hd pl reg E) in H. discriminate. }
+  split; [|exact Hd]. cbn [mp_ahd fst].
+  destruct reg as [|r0 reg]; [reflexivity|].
+  apply mp_hd_split; [exact Hd|discriminate|exact Hx].
+Qed.
+
+Lemma skipn_cons_nth (d : bytes) i c : nth_error d i = Some c -> skipn i d = c :: skipn (i + 1) d.
+Proof.
+  revert i. induction d as [|x d IH]; intros [|i] H; cbn in *; try discriminate.
+  - injection H as ->. reflexivity.
+  - apply IH. exact H.
+Qed.
+
+Lemma slc_cons_nth (d : bytes) i j c : nth_error d i = Some c -> i < j -> mp_slc d i j = c :: mp_slc d (i + 1) j.
+Proof.
+  intros H Hj. unfold mp_slc. rewrite (skipn_cons_nth d i c H).
+  replace (j - i) with (S (j - (i + 1))) by lia. reflexivity.
+Qed.
+
+Lemma nocr_end_snoc r c : c <> CR -> mp_nocr_end (r ++ [c]).
+Proof. intros H. right. rewrite last_last. exact H. Qed.
+
+Lemma base_shd s A d l pl' m' ok' :
+  mp_base s A -> mp_base (mp_shd s d l) (mk_mp_ast (ma_b A) pl' m' ok').
+Proof.
+  intros [H1 H2 H3 H4]. split; cbn; try assumption. apply mp_plwf_hd. exact H3.
+Qed.
+
+Lemma rm_data_inv data s pos sp drp A :
+  mp_rm data s pos sp drp A -> mps_state s = MpsData ->
+  exists crp reg, mps_bpieces s = [] /\ ma_m A = AmData crp /\ ma_pl A = mp_hd (mps_pl s) reg false /\
+    sp <= pos /\ pos <= length data /\
+    ((mps_cr s = true /\ crp = true /\ pos = sp /\ reg = []) \/
+     (mps_cr s = false /\ mp_slc data sp pos = reg ++ (if crp then [CR] else []) /\
+      (crp = false -> mp_nocr_end reg) /\
+      (crp = true -> exists c, nth_error data pos = Some c /\ c <> LF))).
+Proof.
+  intros [crp reg H1 H2 H3 H4 H5 H6 H7|held k d eol H1|H1] Hs.
+  - exists crp, reg. tauto.
+  - congruence.
+  - rewrite Hs in H1. destruct (ma_m A); contradiction.
+Qed.
+
+(* the reference side of one DATA byte, in terms of what has been handed over *)
+Lemma astep_data_cr b pl reg ok crp :
+  let a := mp_astep_data b (mp_hd pl reg false) ok crp CR in
+  ma_ok a = true ->
+  ma_b a = b /\ ma_m a = AmData true /\ ma_pl a = mp_hd pl (reg ++ (if crp then [CR] else [])) false.
+Proof.
+  unfold mp_astep_data. change (CR =? CR)%N with true. cbv iota. destruct crp.
+  - destruct (mp_ahd (mp_hd pl reg false) ok [CR] false) as [pl1 ok1] eqn:E. cbn. intros ->.
+    pose proof (ahd_after pl reg ok [CR] false) as H. rewrite E in H. destruct (H eq_refl ltac:(discriminate)) as [H1 _].
+    cbn in H1. subst pl1. tauto.
+  - cbn. rewrite app_nil_r. tauto.
+Qed.
+
+Lemma astep_data_other b pl reg ok crp c :
+  (c =? CR)%N = false -> (c =? LF)%N = false ->
+  let a := mp_astep_data b (mp_hd pl reg false) ok crp c in
+  ma_ok a = true ->
+  ma_b a = b /\ ma_m a = AmData false /\ ma_pl a = mp_hd pl (reg ++ (if crp then [CR; c] else [c])) false /\ mp_dupb pl = false.
+Proof.
+  intros E1 E2. unfold mp_astep_data. rewrite E1, E2.
+  destruct (mp_ahd (mp_hd pl reg false) ok (if crp then [CR; c] else [c]) false) as [pl1 ok1] eqn:E. cbn. intros ->.
+  pose proof (ahd_after pl reg ok (if crp then [CR; c] else [c]) false) as H. rewrite E in H.
+  destruct (H eq_refl ltac:(destruct crp; discriminate)) as [H1 H2]. cbn in H1. subst pl1. tauto.
+Qed.
+
+Lemma astep_data_lf b pl ok crp :
+  let a := mp_astep_data b pl ok crp LF in
+  ma_b a = b /\ ma_m a = AmBnd (if crp then [CR; LF] else [LF]) 2 /\
+  ma_pl a = mp_pl_flag pl (if crp then c_mp_CRLF_LINE else c_mp_LF_LINE) /\ ma_ok a = ok.
+Proof. unfold mp_astep_data. change (LF =? CR)%N with false. change (LF =? LF)%N with true. cbn. tauto. Qed.
+
+Lemma astep_unfold_data a c crp : ma_m a = AmData crp -> mp_astep a c = mp_astep_data (ma_b a) (ma_pl a) (ma_ok a) crp c.
+Proof. intros H. unfold mp_astep. rewrite H. reflexivity. Qed.
+
+Lemma neqb_neq (a b : N) : (a =? b)%N = false -> a <> b.
+Proof. apply N.eqb_neq. Qed.
+
+(* ------------------------------------------------------------------ case STATE_DATA *)
+Lemma data_loop_pos n : forall data s pos sp drp,
+  match mp_data_loop n data s pos sp drp with
+  | MpGoto _ p' _ _ => pos < p' /\ p' <= length data
+  | _ => True
+  end.
+Proof.
+  induction n as [|n IH]; intros data s pos sp drp; cbn [mp_data_loop].
+  - destruct (mp_sub pos sp); [|exact I]. destruct (mp_sub _ _); [|exact I]. destruct (mp_slice _ _ _); exact I.
+  - unfold mp_rd. destruct (nth_error data pos) as [c|] eqn:Ec; [|exact I].
+    assert (pos < length data) by (apply nth_error_Some; congruence).
+    destruct (c =? CR)%N.
+    + destruct (pos + 1 =? length data).
+      * specialize (IH data (mp_set_cr s true) (pos + 1) sp drp). destruct (mp_data_loop _ _ _ _ _ _); try exact I. lia.
+      * destruct (nth_error data (pos + 1)) eqn:Ec2; [|exact I].
+        assert (pos + 1 < length data) by (apply nth_error_Some; congruence).
+        destruct (n0 =? LF)%N.
+        -- destruct (mp_sub _ _); [lia|exact I].
+        -- specialize (IH data (mp_set_cr s false) (pos + 1) sp drp). destruct (mp_data_loop _ _ _ _ _ _); try exact I. lia.
+    + destruct (c =? LF)%N.
+      * destruct (mp_sub _ _); [lia|exact I].
+      * match goal with |- match mp_data_loop n data ?s1 _ _ _ with _ => _ end => specialize (IH data s1 (pos + 1) sp drp) end.
+        destruct (mp_data_loop _ _ _ _ _ _); try exact I. lia.
+Qed.
+
+Lemma data_loop_sim n : forall data s pos sp drp A,
+  pos + n = length data -> mp_base s A -> mp_rm data s pos sp drp A -> mps_state s = MpsData ->
+  (mps_cr s = true -> nth_error data pos <> Some CR) ->
+  ma_ok (fold_left mp_astep (skipn pos data) A) = true ->
+  match mp_data_loop n data s pos sp drp with
+  | MpBreak s' _ _ _ =>
+      let A' := fold_left mp_astep (skipn pos data) A in mp_base s' A' /\ mp_rm [] s' 0 0 0 A'
+  | MpGoto s' p' sp' d' =>
+      let A' := fold_left mp_astep (mp_slc data pos p') A in mp_base s' A' /\ mp_rm data s' p' sp' d' A'
+  | _ => True
+  end.
+Proof.
+  induction n as [|n IH]; intros data s pos sp drp A Hn HB HR Hst Hhz Hok;
+    destruct (rm_data_inv _ _ _ _ _ _ HR Hst) as (crp & reg & Hbp & Hm & Hpl & Hsp & Hpl' & Hfl); cbn [mp_data_loop].
+  - (* end of the chunk *)
+    rewrite sub_some by lia.
+    destruct Hfl as [(Hcr & _ & Hps & _)|(Hcr & Hslc & Hnc & Hnx)].
+    + rewrite Hcr. subst sp. rewrite Nat.sub_diag. cbn. exact I.
+    + rewrite Hcr. cbn [mp_sub Nat.leb]. rewrite Nat.sub_0_r. rewrite slice_slc by lia.
+      replace (sp + (pos - sp)) with pos by lia.
+      replace (skipn pos data) with (@nil N) by (symmetry; apply skipn_all2; lia). cbn [fold_left].
+      assert (Hcrp : crp = false).
+      { destruct crp; [|reflexivity]. destruct (Hnx eq_refl) as (c & Hc & _).
+        assert (nth_error data pos = None) by (apply nth_error_None; lia). congruence. }
+      subst crp. rewrite app_nil_r in Hslc.
+      split.
+      * destruct HB as [H1 H2 H3 H4]. split; cbn; try assumption. apply mp_plwf_hd. exact H3.
+      * apply RmData with (crp := false) (reg := []); cbn; try assumption; try lia.
+        -- rewrite Hslc. exact Hpl.
+        -- right. repeat split; try assumption; try reflexivity; [left; reflexivity|discriminate].
+  - destruct (nth_error data pos) as [c|] eqn:Ec; unfold mp_rd; rewrite Ec; [|exact I].
+    assert (Hlt : pos < length data) by (apply nth_error_Some; congruence).
+    rewrite (skipn_cons_nth data pos c Ec) in Hok |- *. cbn [fold_left] in Hok |- *.
+    assert (Hok1 : ma_ok (mp_astep A c) = true) by (eapply afold_ok; exact Hok).
+    destruct (c =? CR)%N eqn:E1.
+    + apply N.eqb_eq in E1. subst c.
+      (* a set-aside CR followed by CR is the excluded hazard *)
+      destruct Hfl as [(Hcr & _)|(Hcr & Hslc & Hnc & Hnx)]; [exfalso; apply (Hhz Hcr); reflexivity|].
+      pose proof Hok1 as Hok1'. rewrite (astep_unfold_data A CR crp Hm), Hpl in Hok1'.
+      destruct (astep_data_cr (ma_b A) (mps_pl s) reg (ma_ok A) crp Hok1') as (Hb1 & Hm1 & Hpl1).
+      assert (HA1 : mp_astep A CR = mp_astep_data (ma_b A) (mp_hd (mps_pl s) reg false) (ma_ok A) crp CR)
+        by (rewrite (astep_unfold_data A CR crp Hm), Hpl; reflexivity).
+      rewrite <- HA1 in Hb1, Hm1, Hpl1. clear Hok1' HA1.
+      destruct (pos + 1 =? length data) eqn:El.
+      * (* CR is the last byte: set aside *)
+        apply Nat.eqb_eq in El. assert (n = 0) by lia. subst n. cbn [mp_data_loop].
+        rewrite sub_some by lia. cbn [mp_set_cr mps_cr]. rewrite sub_some by lia. rewrite slice_slc by lia.
+        replace (sp + (pos + 1 - sp - 1)) with pos by lia.
+        replace (skipn (pos + 1) data) with (@nil N) by (symmetry; apply skipn_all2; lia).
+        cbn [fold_left].
+        split.
+        -- destruct HB as [H1 H2 H3 H4]. split; cbn; try assumption; try congruence. apply mp_plwf_hd. exact H3.
+        -- apply RmData with (crp := true) (reg := []); cbn; try assumption; try lia.
+           ++ rewrite Hpl1, <- Hslc. reflexivity.
+           ++ left. tauto.
+      * apply Nat.eqb_neq in El.
+        destruct (nth_error data (pos + 1)) as [c2|] eqn:Ec2; [|exact I].
+        assert (Hp1 : pos + 1 < length data) by (apply nth_error_Some; congruence).
+        destruct (c2 =? LF)%N eqn:E2.
+        -- (* CR LF: boundary test *)
+           apply N.eqb_eq in E2. subst c2. rewrite sub_some by lia.
+           rewrite (slc_cons_nth data pos (pos + 2) CR Ec) by lia.
+           rewrite (slc_cons_nth data (pos + 1) (pos + 2) LF Ec2) by lia.
+           replace (pos + 1 + 1) with (pos + 2) by lia. rewrite slc_nil. cbn [fold_left].
+           rewrite (astep_unfold_data (mp_astep A CR) LF true Hm1).
+           destruct (astep_data_lf (ma_b (mp_astep A CR)) (ma_pl (mp_astep A CR)) (ma_ok (mp_astep A CR)) true) as (Hb2 & Hm2 & Hpl2 & _).
+           split.
+           ++ destruct HB as [H1 H2 H3 H4]. split; cbn; try assumption; try congruence.
+           ++ apply RmBnd with (held := [CR; LF]) (k := 2) (d := reg ++ (if crp then [CR] else [])) (eol := [CR; LF]);
+                cbn [mp_to_boundary mp_sflag mp_set_pl mps_state mps_mpos mps_bpieces mps_cand mps_cr mps_boundary mps_pl];
+                try assumption; try reflexivity; try lia.
+              ** destruct HB as [_ _ _ (b & Hb & _)]. rewrite Hb. cbn. lia.
+              ** rewrite Hbp. cbn [concat app]. rewrite (slc_app data sp pos (pos + 2)) by lia.
+                 rewrite (slc_cons_nth data pos (pos + 2) CR Ec) by lia.
+                 rewrite (slc_cons_nth data (pos + 1) (pos + 2) LF Ec2) by lia.
+                 replace (pos + 1 + 1) with (pos + 2) by lia. rewrite slc_nil, Hslc.
+                 apply firstn_all2. rewrite !app_length. rewrite <- app_length, <- Hslc, slc_length by lia. cbn. lia.
+              ** rewrite Hbp. cbn [concat app]. unfold mp_matched. cbn [Nat.sub firstn].
+                 apply skipn_all2. rewrite slc_length by lia. lia.
+              ** rewrite Hcr. reflexivity.
+              ** rewrite Hcr. right. right. left. tauto.
+              ** rewrite Hpl2, Hpl1. rewrite mp_hd_flag by exact mp_neutral_crlf. reflexivity.
+              ** intros p1 r Hp. rewrite Hbp in Hp. discriminate.
+        -- (* CR x: stays data *)
+           pose proof (data_loop_pos n data (mp_set_cr s false) (pos + 1) sp drp) as HP.
+           specialize (IH data (mp_set_cr s false) (pos + 1) sp drp (mp_astep A CR) ltac:(lia)).
+           assert (HB1 : mp_base (mp_set_cr s false) (mp_astep A CR))
+             by (destruct HB as [H1 H2 H3 H4]; split; cbn; try assumption; congruence).
+           assert (HR1 : mp_rm data (mp_set_cr s false) (pos + 1) sp drp (mp_astep A CR)).
+           { apply RmData with (crp := true) (reg := reg ++ (if crp then [CR] else [])); cbn; try assumption; try lia.
+             right. split; [reflexivity|]. split; [|split; [discriminate|]].
+             + rewrite (slc_snoc data sp pos CR) by (try lia; exact Ec). rewrite Hslc. reflexivity.
+             + intros _. exists c2. split; [exact Ec2|apply neqb_neq; exact E2]. }
+           specialize (IH HB1 HR1 Hst ltac:(cbn; discriminate) Hok).
+           destruct (mp_data_loop n data (mp_set_cr s false) (pos + 1) sp drp) as [s' p' sp' d'|s' p' sp' d'|s'|]; try exact I.
+           ++ rewrite (slc_cons_nth data pos p' CR Ec) by lia. exact IH.
+           ++ exact IH.
+    + destruct (c =? LF)%N eqn:E2.
+      * (* LF: boundary test *)
+        apply N.eqb_eq in E2. subst c. rewrite sub_some by lia.
+        rewrite (slc_cons_nth data pos (pos + 1) LF Ec) by lia. rewrite slc_nil. cbn [fold_left].
+        rewrite (astep_unfold_data A LF crp Hm).
+        destruct (astep_data_lf (ma_b A) (ma_pl A) (ma_ok A) crp) as (Hb2 & Hm2 & Hpl2 & _).
+        split.
+        -- destruct HB as [H1 H2 H3 H4]. split; cbn; try assumption; try congruence.
+        -- destruct Hfl as [(Hcr & Hcrp & Hps & Hreg)|(Hcr & Hslc & Hnc & Hnx)].
+           ++ (* the CR was set aside by the previous call *)
+              subst crp reg sp.
+              apply RmBnd with (held := [CR; LF]) (k := 2) (d := []) (eol := [LF]);
+                cbn [mp_to_boundary mp_sflag mp_set_pl mps_state mps_mpos mps_bpieces mps_cand mps_cr mps_boundary mps_pl];
+                try assumption; try reflexivity; try lia.
+              ** destruct HB as [_ _ _ (b & Hb & _)]. rewrite Hb. cbn. lia.
+              ** rewrite Hbp. cbn [concat app]. rewrite (slc_cons_nth data pos (pos + 1) LF Ec) by lia. rewrite slc_nil.
+                 replace (pos + 1 - pos) with 1 by lia. reflexivity.
+              ** rewrite Hbp. cbn [concat app]. rewrite (slc_cons_nth data pos (pos + 1) LF Ec) by lia. rewrite slc_nil.
+                 replace (pos + 1 - pos) with 1 by lia. reflexivity.
+              ** rewrite Hcr. reflexivity.
+              ** rewrite Hcr. right. right. right. tauto.
+              ** rewrite Hpl2, Hpl, Hcr. reflexivity.
+              ** intros p1 r Hp. rewrite Hbp in Hp. discriminate.
+           ++ assert (Hcrp : crp = false).
+              { destruct crp; [|reflexivity]. destruct (Hnx eq_refl) as (c & Hc & Hne). congruence. }
+              subst crp. rewrite app_nil_r in Hslc.
+              apply RmBnd with (held := [LF]) (k := 2) (d := reg) (eol := [LF]);
+                cbn [mp_to_boundary mp_sflag mp_set_pl mps_state mps_mpos mps_bpieces mps_cand mps_cr mps_boundary mps_pl];
+                try assumption; try reflexivity; try lia.
+              ** destruct HB as [_ _ _ (b & Hb & _)]. rewrite Hb. cbn. lia.
+              ** rewrite Hbp. cbn [concat app]. rewrite (slc_snoc data sp pos LF) by (try lia; exact Ec). rewrite Hslc.
+                 apply firstn_all2. rewrite app_length, <- Hslc, slc_length by lia. cbn. lia.
+              ** rewrite Hbp. cbn [concat app]. unfold mp_matched. cbn [Nat.sub firstn].
+                 apply skipn_all2. rewrite slc_length by lia. lia.
+              ** rewrite Hcr. reflexivity.
+              ** rewrite Hcr. right. left. split; [reflexivity|]. split; [reflexivity|]. apply Hnc. reflexivity.
+              ** rewrite Hpl2, Hpl, Hcr. rewrite mp_hd_flag by exact mp_neutral_lf. reflexivity.
+              ** intros p1 r Hp. rewrite Hbp in Hp. discriminate.
+      * (* ordinary byte *)
+        pose proof Hok1 as Hok1'. rewrite (astep_unfold_data A c crp Hm), Hpl in Hok1'.
+        destruct (astep_data_other (ma_b A) (mps_pl s) reg (ma_ok A) crp c E1 E2 Hok1') as (Hb1 & Hm1 & Hpl1 & Hnd).
+        assert (HA1 : mp_astep A c = mp_astep_data (ma_b A) (mp_hd (mps_pl s) reg false) (ma_ok A) crp c)
+          by (rewrite (astep_unfold_data A c crp Hm), Hpl; reflexivity).
+        rewrite <- HA1 in Hb1, Hm1, Hpl1. clear Hok1' HA1.
+        set (s1 := if mps_cr s then mp_set_cr (mp_shd s [CR] false) false else s).
+        pose proof (data_loop_pos n data s1 (pos + 1) sp drp) as HP.
+        specialize (IH data s1 (pos + 1) sp drp (mp_astep A c) ltac:(lia)).
+        assert (HB1 : mp_base s1 (mp_astep A c)).
+        { destruct HB as [H1 H2 H3 H4]. subst s1. destruct (mps_cr s); split; cbn; try assumption; try congruence.
+          apply mp_plwf_hd. exact H3. }
+        assert (HR1 : mp_rm data s1 (pos + 1) sp drp (mp_astep A c)).
+        { destruct Hfl as [(Hcr & Hcrp & Hps & Hreg)|(Hcr & Hslc & Hnc & Hnx)].
+          - subst crp reg sp. subst s1. rewrite Hcr.
+            apply RmData with (crp := false) (reg := [c]); cbn; try assumption; try lia.
+            + rewrite Hpl1. cbn [app]. change [CR; c] with ([CR] ++ [c]).
+              symmetry. apply mp_hd_split_nl. exact Hnd.
+            + right. split; [reflexivity|]. split; [|split; [|discriminate]].
+              * rewrite (slc_cons_nth data pos (pos + 1) c Ec) by lia. rewrite slc_nil. reflexivity.
+              * intros _. right. cbn. apply neqb_neq. exact E1.
+          - subst s1. rewrite Hcr.
+            apply RmData with (crp := false) (reg := reg ++ (if crp then [CR; c] else [c])); try assumption; try lia.
+            right. split; [exact Hcr|]. split; [|split; [|discriminate]].
+            + rewrite (slc_snoc data sp pos c) by (try lia; exact Ec). rewrite Hslc, app_nil_r.
+              destruct crp; rewrite <- app_assoc; reflexivity.
+            + intros _. destruct crp.
+              * change [CR; c] with ([CR] ++ [c]). rewrite app_assoc. apply nocr_end_snoc. apply neqb_neq. exact E1.
+              * apply nocr_end_snoc. apply neqb_neq. exact E1. }
+        assert (Hhz1 : mps_cr s1 = true -> nth_error data (pos + 1) <> Some CR)
+          by (subst s1; destruct (mps_cr s); cbn; discriminate).
+        assert (Hst1 : mps_state s1 = MpsData) by (subst s1; destruct (mps_cr s); cbn; exact Hst).
+        specialize (IH HB1 HR1 Hst1 Hhz1 Hok).
+        destruct (mp_data_loop n data s1 (pos + 1) sp drp) as [s' p' sp' d'|s' p' sp' d'|s'|]; try exact I.
+        -- rewrite (slc_cons_nth data pos p' c Ec) by lia. exact IH.
+        -- exact IH.
+Qed.
